@@ -13,7 +13,7 @@ MANIFEST = dict(
          "Complete (action property: no invocation when the key is among the `limit` most recently used and "
          "unexpired), Capacity. TLC checks all histories within the bounds; every edge is replayed into the real "
          "decorator (keys -1 / -1.0 / -2 / x=-1 / True / 1: ==-equal of different types, unequal with equal hashes; ==-equal receivers) and a Drain edge from EVERY state calls every key "
-         "once more so that hidden LRU order / expiry / eviction state is compared too.",
+         "once more so that hidden LRU order / expiry / eviction state is compared too. Also: re-entrant calls (CallNested: the function body calls the same cached function - memoised recursion) in the synchronous forms; the key alphabet includes the call without arguments and unequal arguments with equal hashes.",
     technique="TLA+ spec + TLC exhaustive model checking (history-based invariants and action property); edge-complete "
               "graph replay into the implementation in exact virtual time",
     design="5/C12")
